@@ -300,3 +300,62 @@ func errorResultIndex(f *ssa.Function) int {
 	}
 	return -1
 }
+
+// onAllPaths reports whether, on every path from the definition of anchor to
+// instr `at`, some branch edge establishes a fact accepted by match. It walks
+// predecessors backwards; a path that reaches the block defining anchor (or the
+// entry) without such an edge is a counterexample.
+func onAllPaths(g *ssax.Graph, at ssa.Instruction, anchor ssa.Value, match func(ssax.Fact) bool) bool {
+	var anchorBlock = -1
+	if i, ok := anchor.(ssa.Instruction); ok && i.Block() != nil {
+		anchorBlock = i.Block().Index
+	}
+	state := map[int]int{} // 1 in progress, 2 true, 3 false
+	var holds func(b int) bool
+	holds = func(b int) bool {
+		switch state[b] {
+		case 1, 2:
+			return true
+		case 3:
+			return false
+		}
+		state[b] = 1
+		ok := true
+		if b == 0 || len(g.Preds[b]) == 0 {
+			ok = false
+		}
+		for _, p := range g.Preds[b] {
+			found := false
+			for _, f := range factsOnEdge(g, g.Fn.Blocks[p], g.Fn.Blocks[b]) {
+				// only the edge's own fact (the last one) is new; earlier ones are p's dominating facts
+				if match(f) {
+					found = true
+				}
+			}
+			if found {
+				continue
+			}
+			if p == anchorBlock {
+				ok = false
+				break
+			}
+			if !holds(p) {
+				ok = false
+				break
+			}
+		}
+		if ok {
+			state[b] = 2
+		} else {
+			state[b] = 3
+		}
+		return ok
+	}
+	b := at.Block().Index
+	for _, f := range g.FactsAt(b) {
+		if match(f) {
+			return true
+		}
+	}
+	return holds(b)
+}
